@@ -11,8 +11,8 @@ import (
 	"time"
 )
 
-// tunnel sequences (spec/Tunnel.tla): every sequence is run three ways on the same proxy, each way with its own
-// copy of the resources: all exchanges over one shared tunnel, one tunnel per exchange, plain HTTP.
+// tunnel sequences (spec/Tunnel.tla): every sequence is run four ways on the same proxy, each way with its own
+// copy of the resources: all exchanges over one shared tunnel, one tunnel per exchange, plain HTTP, and pipelined over one tunnel.
 
 type kdef struct {
 	Res    string   `json:"res"`
@@ -117,7 +117,7 @@ func runSequences(dir, backend, in, out string) error {
 		enc.Encode(map[string]any{"a": "reset", "s": s.S})
 		// client-side requests per way
 		mk := func(way int, kd kdef) (*Case, []byte) {
-			id := (s.S*3+way)*10 + resIdx[kd.Res]
+			id := (s.S*4+way)*10 + resIdx[kd.Res]
 			oc := &Case{ID: id, Slice: "S", Method: kd.Method, Path: "/res", Query: "NONE", Rbody: "none", Status: kd.Status, Sbody: kd.Body}
 			for _, n := range kd.Hdrs {
 				for _, v := range hdrValues(n, kd.Res) {
@@ -169,7 +169,7 @@ func runSequences(dir, backend, in, out string) error {
 		if conn != nil && terr == nil && n > 0 {
 			// one more, unjudged exchange: if the proxy left part of the last request unread (a body it had no use
 			// for), that rest is taken for the next request line and this probe fails
-			probe := &Case{ID: (s.S*3)*10 + 9, Slice: "S", Method: "GET", Path: "/probe", Query: "NONE", Rbody: "none", Status: 404, Sbody: "sized"}
+			probe := &Case{ID: (s.S*4)*10 + 9, Slice: "S", Method: "GET", Path: "/probe", Query: "NONE", Rbody: "none", Status: 404, Sbody: "sized"}
 			d.mu.Lock()
 			d.cases[probe.ID] = probe
 			d.mu.Unlock()
@@ -198,6 +198,50 @@ func runSequences(dir, backend, in, out string) error {
 			}
 			conn.(net.Conn).Close()
 		}
+		// way 3: the same exchanges pipelined over one tunnel: every request is on the wire before the first answer is read
+		// (not with Expect: 100-continue, where the client waits for the interim response by definition)
+		piped := make([]map[string]any, n)
+		pipeOK := n > 0
+		for _, kd := range s.Defs {
+			if kd.Expect {
+				pipeOK = false
+			}
+		}
+		if !pipeOK {
+			for i := range piped {
+				piped[i] = map[string]any{"err": "skipped", "status": 0, "names": []string{}, "vals": map[string][]string{}, "body": "", "sized": false}
+			}
+		} else {
+			pc, pbr, perr := d.openTunnel()
+			var all bytes.Buffer
+			ccs, fulls := make([]*Case, n), make([][]byte, n)
+			for i, kd := range s.Defs {
+				ccs[i], fulls[i] = mk(3, kd)
+				all.Write(d.wire(ccs[i], false))
+			}
+			if perr == nil {
+				go pc.Write(all.Bytes())
+			}
+			for i, kd := range s.Defs {
+				var a answer
+				if perr != nil {
+					a = answer{Err: "tunnel: " + perr.Error()}
+				} else {
+					a = readAnswer(pbr, ccs[i].Method, pc)
+					if a.Err != "" {
+						perr = fmt.Errorf("earlier exchange failed: %s", a.Err)
+					}
+				}
+				piped[i] = d.observe(a, kd, fulls[i], s.Tracked)
+			}
+			if pc != nil {
+				pc.SetDeadline(time.Now().Add(30 * time.Millisecond))
+				if extra, _ := pbr.Peek(1); len(extra) > 0 && perr == nil && piped[n-1]["err"] == "" {
+					piped[n-1]["err"] = "bytes left on the tunnel after the last response"
+				}
+				pc.Close()
+			}
+		}
 		for way, tr := range map[int]string{1: "tunnel", 2: "plain"} {
 			for i, kd := range s.Defs {
 				cc, full := mk(way, kd)
@@ -206,7 +250,7 @@ func runSequences(dir, backend, in, out string) error {
 			}
 		}
 		for i := range s.Defs {
-			enc.Encode(map[string]any{"a": "x", "s": s.S, "i": i + 1, "k": s.Kinds[i], "shared": obs[i][0], "own": obs[i][1], "plain": obs[i][2]})
+			enc.Encode(map[string]any{"a": "x", "s": s.S, "i": i + 1, "k": s.Kinds[i], "shared": obs[i][0], "own": obs[i][1], "plain": obs[i][2], "piped": piped[i]})
 		}
 	}
 	return sc.Err()
